@@ -11,7 +11,11 @@ one() {
   W=/tmp/mut/$m; rm -rf "$W"; mkdir -p "$W"
   git -C /repo worktree add -q --detach "$W/repo" HEAD 2>/dev/null || { echo "$m worktree-failed" >> "$LOG"; return; }
   if ! git -C "$W/repo" apply ${BASE:-/verif/seeded}/$m/patch.diff 2>/dev/null; then echo "$m patch-does-not-apply" >> "$LOG"; git -C /repo worktree remove --force "$W/repo"; rm -rf "$W"; return; fi
-  rsync -a --exclude .git --exclude 'fuzz/target' --exclude replays --exclude seeded /verif/ "$W/verif/"
+  # the committed state of /verif (not the working tree, which may be mid-edit), plus the
+  # harness build output for a warm build
+  mkdir -p "$W/verif"
+  git -C /verif archive HEAD | tar -x -C "$W/verif" --exclude=seeded --exclude=benign
+  rsync -a /verif/harness/target "$W/verif/harness/" 2>/dev/null
   sed -i "s#path = \"/repo\"#path = \"$W/repo\"#" "$W/verif/harness/Cargo.toml" "$W/verif/fuzz/Cargo.toml"
   for id in ${ids//,/ }; do
     OUT=$(cd "$W/verif" && VERIF_SEED=${VERIF_SEED:-5} ./check "$id" ${TIER:-quick} 2>&1); RC=$?
